@@ -447,3 +447,88 @@ Theorem trav_fold : forall fuel x acc,
 Proof. intros fuel x acc Hs HP. destruct (trav_rec_ok fuel x) as [H _]. now apply H. Qed.
 
 End Fold.
+
+(* ------------------------------------------------------------------ invariants of the accumulator *)
+
+(* whatever the callback answers, a property of the accumulator that every callback call preserves is
+   preserved by the whole traversal *)
+Section Invariant.
+Context {M : MatchOps}.
+Variable A : Type.
+Variable cb : A -> node -> A * Z.
+Variable Q : A -> Prop.
+Variable t : tree.
+Variable m : matcher.
+Variable rd : nat.
+Variable uf gf : bool.
+Hypothesis cb_Q : forall acc n, Q acc -> Q (fst (cb acc n)).
+
+Lemma chk_Q : forall recT child rel known,
+  (forall p acc, Q acc -> Q (fst (recT p acc))) ->
+  forall es idx matched recursed acc, Q acc ->
+  Q (fst (check_entries A cb m rd uf gf recT child rel known es idx matched recursed acc)).
+Proof.
+  intros recT child rel known Hrec. induction es as [|e es IH]; intros idx matched recursed acc HQ; cbn [check_entries]; auto.
+  match goal with |- context [if ?b then _ else _] => destruct b end; [|now apply IH].
+  destruct (Nat.eqb (length (e_pat e)) (S rel)).
+  - destruct matched; [now apply IH|].
+    match goal with |- context [if ?b then _ else _] => destruct b end; [|now apply IH].
+    pose proof (cb_Q acc child HQ) as H1. destruct (cb acc child) as [acc1 nd]. cbn [fst] in H1.
+    destruct (Z.ltb nd (Z.of_nat (depth child) - 1)); auto.
+    destruct recursed; auto.
+  - destruct recursed; [now apply IH|].
+    pose proof (Hrec (n_path child) acc HQ) as H1. destruct (recT (n_path child) acc) as [acc1 nd]. cbn [fst] in H1.
+    destruct (Z.ltb nd (Z.of_nat (depth child) - 1)); auto.
+    destruct matched; auto.
+Qed.
+
+Lemma iter_Q : forall recT rel,
+  (forall p acc, Q acc -> Q (fst (recT p acc))) ->
+  forall cs acc, Q acc -> Q (fst (iter_children A cb m rd uf gf recT rel cs acc)).
+Proof.
+  intros recT rel Hrec. induction cs as [|c cs IH]; intros acc HQ; cbn [iter_children]; auto.
+  unfold check_child.
+  pose proof (chk_Q recT c rel None Hrec (active m rel) 0 false false acc HQ) as H1.
+  destruct (check_entries A cb m rd uf gf recT c rel None (active m rel) 0 false false acc) as [acc1 [d|]]; auto.
+Qed.
+
+Lemma lookup_keys_Q : forall recT x rel idx,
+  (forall p acc, Q acc -> Q (fst (recT p acc))) ->
+  forall ks did acc, Q acc -> Q (fst (fst (lookup_keys A cb t m rd uf gf recT x rel idx ks did acc))).
+Proof.
+  intros recT x rel idx Hrec. induction ks as [|k ks IH]; intros did acc HQ; cbn [lookup_keys]; auto.
+  destruct (get_child t x k) as [c|]; [|now apply IH].
+  destruct (path_mem (n_path c) did); [now apply IH|].
+  unfold check_child.
+  pose proof (chk_Q recT c rel (Some idx) Hrec (active m rel) 0 false false acc HQ) as H1.
+  destruct (check_entries A cb m rd uf gf recT c rel (Some idx) (active m rel) 0 false false acc) as [acc1 [d|]]; auto.
+Qed.
+
+Lemma lookup_entries_Q : forall recT x rel,
+  (forall p acc, Q acc -> Q (fst (recT p acc))) ->
+  forall es idx did acc, Q acc -> Q (fst (lookup_entries A cb t m rd uf gf recT x rel es idx did acc)).
+Proof.
+  intros recT x rel Hrec. induction es as [|e es IH]; intros idx did acc HQ; cbn [lookup_entries]; auto.
+  pose proof (lookup_keys_Q recT x rel idx Hrec
+                match ckeys (clause_at e rel) with Some ks => ks | None => [] end did acc HQ) as H1.
+  destruct (lookup_keys A cb t m rd uf gf recT x rel idx
+              match ckeys (clause_at e rel) with Some ks => ks | None => [] end did acc) as [[acc1 did1] [d|]]; auto.
+Qed.
+
+Lemma trav_Q : forall fuel x acc, Q acc -> Q (fst (trav A cb t m rd uf gf fuel x acc)).
+Proof.
+  induction fuel as [|f IH]; intros x acc HQ; cbn [trav]; auto.
+  destruct (existsb _ _).
+  - pose proof (iter_Q (trav A cb t m rd uf gf f) (length x - rd) IH (children t x) acc HQ) as H1.
+    destruct (iter_children A cb m rd uf gf (trav A cb t m rd uf gf f) (length x - rd) (children t x) acc) as [acc1 [d|]]; auto.
+  - pose proof (lookup_entries_Q (trav A cb t m rd uf gf f) x (length x - rd) IH (active m (length x - rd)) 0 [] acc HQ) as H1.
+    destruct (lookup_entries A cb t m rd uf gf (trav A cb t m rd uf gf f) x (length x - rd) (active m (length x - rd)) 0 [] acc)
+      as [acc1 [d|]]; auto.
+Qed.
+
+End Invariant.
+
+Theorem do_traversal_Q : forall {M : MatchOps} (A : Type) (cb : A -> node -> A * Z) (Q : A -> Prop) t m uf gf,
+  (forall acc n, Q acc -> Q (fst (cb acc n))) ->
+  forall root acc, Q acc -> Q (do_traversal cb t m root uf gf acc).
+Proof. intros M A cb Q t m uf gf H root acc HQ. unfold do_traversal. now apply trav_Q. Qed.
